@@ -69,7 +69,7 @@ TargetKind(code, i, d) ==
 TargetKinds(code, i) ==
     LET c == code[i] IN
     IF c.o = "br_table" THEN {TargetKind(code, i, c.ds[x]) : x \in DOMAIN c.ds} \cup {TargetKind(code, i, c.d)}
-    ELSE IF c.o \in {"br", "br_if"} THEN {TargetKind(code, i, c.d)}
+    ELSE IF c.o \in {"br", "br_if", "bron"} THEN {TargetKind(code, i, c.d)}
     ELSE {}
 
 ---------------------------------------------------------------------------
@@ -157,6 +157,13 @@ XStep(m, code, jt, ar, v) ==
                         ELSE [nx EXCEPT !.vs = Pop(@)]
       [] o = "br_table" -> IF Len(m.vs) = 0 THEN Stuck(m)
                            ELSE Branch([m EXCEPT !.vs = Pop(@)], BrTableDepth(c, Top(m.vs)), ar)
+      \* references as integers: ref.null func = 0, ref.func = 1; br_on_null branches (dropping the reference) on a
+      \* null one and otherwise falls through leaving it on the stack
+      [] o = "rnull" -> [nx EXCEPT !.vs = Append(@, 0)]
+      [] o = "rfunc" -> [nx EXCEPT !.vs = Append(@, 1)]
+      [] o = "bron"  -> IF Len(m.vs) = 0 THEN Stuck(m)
+                        ELSE IF Top(m.vs) = 0 THEN Branch([m EXCEPT !.vs = Pop(@)], c.d, ar)
+                        ELSE nx
       [] o = "return"      -> Return(m, ar)
       [] o = "unreachable" -> Trap(m)
       \* an exception nobody in this function catches ends the activation like a trap does
